@@ -203,7 +203,7 @@ func (q pathQuery) exists() (bool, string) {
 }
 
 func isReturn(in ssa.Instruction) bool { _, ok := in.(*ssa.Return); return ok }
-func isPanicI(in ssa.Instruction) bool  { _, ok := in.(*ssa.Panic); return ok }
+func isPanicI(in ssa.Instruction) bool { _, ok := in.(*ssa.Panic); return ok }
 
 // instrDominates: a executes before b on every path reaching b.
 func instrDominates(a, b ssa.Instruction) bool {
@@ -703,4 +703,132 @@ func returnedValue(ret *ssa.Return, idx int) ssa.Value {
 		return last
 	}
 	return v
+}
+
+// ---------------------------------------------------------------------------------------------
+// GATE-EXACT: the conditions under which a block executes are exactly the expected ones. A conjunct
+// added to a gate (`if flag && somethingElse`) shows up as one more dominating guard; a rule states
+// which guards it expects (semantic predicates) and every other guard is reported with its text.
+
+func valText(v ssa.Value) string { return valTextD(v, 0) }
+
+func valTextD(v ssa.Value, d int) string {
+	if d > 5 || v == nil {
+		return "…"
+	}
+	switch x := v.(type) {
+	case *ssa.Const:
+		if x.Value == nil {
+			return "nil"
+		}
+		return x.Value.String()
+	case *ssa.Parameter:
+		return x.Name()
+	case *ssa.FreeVar:
+		return x.Name()
+	case *ssa.Global:
+		return x.Name()
+	case *ssa.Alloc:
+		if x.Comment != "" {
+			return x.Comment
+		}
+		return x.Name()
+	case *ssa.UnOp:
+		switch x.Op {
+		case token.MUL:
+			return valTextD(x.X, d+1)
+		case token.NOT:
+			return "!" + valTextD(x.X, d+1)
+		case token.ARROW:
+			return "<-" + valTextD(x.X, d+1)
+		}
+		return x.Op.String() + valTextD(x.X, d+1)
+	case *ssa.FieldAddr:
+		if f := fieldVarOfAddr(x); f != nil {
+			return valTextD(x.X, d+1) + "." + f.Name()
+		}
+	case *ssa.Field:
+		if f := fieldVarOfField(x); f != nil {
+			return valTextD(x.X, d+1) + "." + f.Name()
+		}
+	case *ssa.IndexAddr:
+		return valTextD(x.X, d+1) + "[" + valTextD(x.Index, d+1) + "]"
+	case *ssa.Index:
+		return valTextD(x.X, d+1) + "[" + valTextD(x.Index, d+1) + "]"
+	case *ssa.Lookup:
+		return valTextD(x.X, d+1) + "[" + valTextD(x.Index, d+1) + "]"
+	case *ssa.BinOp:
+		return valTextD(x.X, d+1) + " " + x.Op.String() + " " + valTextD(x.Y, d+1)
+	case *ssa.Extract:
+		if _, isNext := x.Tuple.(*ssa.Next); isNext {
+			return [...]string{"range-ok", "range-key", "range-value"}[x.Index%3]
+		}
+		return valTextD(x.Tuple, d+1) + fmt.Sprintf("#%d", x.Index)
+	case *ssa.MakeSlice:
+		return "make(" + x.Type().String() + ", " + valTextD(x.Len, d+1) + ")"
+	case *ssa.Call:
+		name := calleeFullName(x)
+		if b, ok := x.Call.Value.(*ssa.Builtin); ok {
+			name = b.Name()
+		}
+		var as []string
+		for _, a := range x.Call.Args {
+			as = append(as, valTextD(a, d+2))
+		}
+		return name + "(" + strings.Join(as, ", ") + ")"
+	case *ssa.MakeInterface:
+		return valTextD(x.X, d+1)
+	case *ssa.ChangeType:
+		return valTextD(x.X, d+1)
+	case *ssa.Convert:
+		return valTextD(x.X, d+1)
+	case *ssa.TypeAssert:
+		return valTextD(x.X, d+1) + ".(" + x.AssertedType.String() + ")"
+	case *ssa.Phi:
+		if x.Comment != "" {
+			return x.Comment
+		}
+	}
+	return v.Name()
+}
+
+func guardText(g guard) string {
+	if g.pol {
+		return valText(g.cond)
+	}
+	return "!(" + valText(g.cond) + ")"
+}
+
+// extraGuards lists the guards of b accepted by none of the predicates.
+func extraGuards(b *ssa.BasicBlock, allowed ...func(guard) bool) []string {
+	var out []string
+next:
+	for _, g := range guardsOf(b) {
+		for _, a := range allowed {
+			if a(g) {
+				continue next
+			}
+		}
+		out = append(out, guardText(g))
+	}
+	return out
+}
+
+// guardOnField: the guard compares (any operator) a load of field f with something.
+func guardOnField(f *types.Var) func(guard) bool {
+	return func(g guard) bool {
+		_, x, y, ok := asCmp(g.cond)
+		if ok {
+			return isLoadOfField(x, f) || isLoadOfField(y, f)
+		}
+		return isLoadOfField(g.cond, f)
+	}
+}
+
+// guardErrNil: "some error value == nil" holds (the success side of an error check).
+func guardErrNil(g guard) bool {
+	return guardIsNil(g, func(v ssa.Value) bool { return types.Identical(v.Type(), types.Universe.Lookup("error").Type()) })
+}
+func guardErrNonNil(g guard) bool {
+	return guardNonNil(g, func(v ssa.Value) bool { return types.Identical(v.Type(), types.Universe.Lookup("error").Type()) })
 }
